@@ -4,7 +4,8 @@ from __future__ import annotations
 import ast
 
 from ..cfg import cfg_of, T as TRUE, F as FALSE
-from ..dataflow import derives, rd_of
+from ..dataflow import derives, rd_of, resolve_local, return_values, expand_locals
+from .common_guard import raise_facts, path_facts, facts
 from ..loader import dotted, walk_no_nested
 from ..tables import op_classes
 from . import c04
@@ -23,15 +24,15 @@ def errors(ctx, rule="C10.errors"):
     f = ctx.tree.func(PA, "MeasuredParameter._eval_evalf")
     cfg = cfg_of(f.node)
     ok = False
-    for n in cfg.nodes:
-        if n.kind == "if" and isinstance(n.ast, ast.Compare) and isinstance(n.ast.ops[0], ast.Is) and \
-                isinstance(n.ast.comparators[0], ast.Constant) and n.ast.comparators[0].value is None and \
-                cfg.ends_in_raise(n.id, TRUE):
-            d = derives(f.node, n.ast.left, n.id)
-            if any(a.endswith("regref.val") for a in d.attrs) or "val" in d.attr_reads:
-                # dominates every return
-                rets = [i for i in cfg.ids() if isinstance(cfg.node(i).ast, ast.Return)]
-                ok = bool(rets) and all(cfg.dominates(n.id, r) for r in rets)
+    for n, exc, fs in raise_facts(f):
+        for a, truth in fs:
+            if truth and isinstance(a, ast.Compare) and isinstance(a.ops[0], ast.Is) and \
+                    isinstance(a.comparators[0], ast.Constant) and a.comparators[0].value is None:
+                d = derives(f.node, a.left, n.id)
+                if any(x.endswith("regref.val") for x in d.attrs) or "val" in d.attr_reads:
+                    # dominates every return
+                    rets = [i for i in cfg.ids() if isinstance(cfg.node(i).ast, ast.Return)]
+                    ok = ok or bool(rets) and all(cfg.dominates(n.id, r) for r in rets)
     ctx.ob(rule, f.site, ok, "" if ok else "a measured parameter can be evaluated before its mode has been measured "
            "(no raising `val is None` guard ahead of the returns)", role="unmeasured", line=f.node.lineno)
     rets = [n for n in walk_no_nested(f.node) if isinstance(n, ast.Return) and n.value is not None]
@@ -40,9 +41,24 @@ def errors(ctx, rule="C10.errors"):
            "outcome of the mode)", role="most-recent", line=f.node.lineno)
     g = ctx.tree.func(PA, "FreeParameter._eval_evalf")
     cfgg = cfg_of(g.node)
-    raising = [n for n in cfgg.nodes if n.kind == "if" and cfgg.ends_in_raise(n.id, TRUE) and "default" in ast.unparse(n.ast)]
-    outer = [n for n in cfgg.nodes if n.kind == "if" and "self.val is None" == ast.unparse(n.ast)]
-    ok = bool(raising) and bool(outer) and any((outer[0].id, TRUE) in cfgg.branch_conditions(r.id) for r in raising)
+    def is_none(a, attr):
+        a = expand_locals(g.node, a)
+        return isinstance(a, ast.Compare) and isinstance(a.ops[0], ast.Is) and isinstance(a.comparators[0], ast.Constant) \
+            and a.comparators[0].value is None and dotted(a.left) == attr
+    # every path on which val and default are both None ends in the raise: no value-returning statement is
+    # reachable under the facts (val is None, default is None)
+    ok = False
+    for nd in cfgg.nodes:
+        if nd.kind == "stmt" and isinstance(nd.ast, ast.Raise):
+            pf = path_facts(cfgg, nd.id)
+            if any(t and is_none(a, "self.val") for a, t in pf) and any(t and is_none(a, "self.default") for a, t in pf):
+                ok = True
+    for nd in cfgg.nodes:
+        if nd.kind == "stmt" and isinstance(nd.ast, ast.Return):
+            d = derives(g.node, nd.ast.value, nd.id) if nd.ast.value is not None else None
+            pf = path_facts(cfgg, nd.id)
+            if d is not None and "self.default" in d.attrs and not any(t and is_none(a, "self.val") for a, t in pf):
+                ok = False  # the default is handed out although a value is bound
     ctx.ob(rule, g.site, ok, "" if ok else "an unbound free parameter without default no longer raises", role="unbound",
            line=g.node.lineno)
     for fn in (f, g):
@@ -57,9 +73,10 @@ def errors(ctx, rule="C10.errors"):
               and dotted(n.exc.func) == "ParameterError"]
     ok = False
     for r in raises:
-        conds = cfb.branch_conditions(cfb.find(r)[0])
         # reached only when the key is neither a known name nor a known parameter
-        if sum(1 for h, lab in conds if cfb.node(h).kind == "if" and lab == FALSE) >= 2:
+        pf = path_facts(cfb, cfb.find(r)[0])
+        neg = [a for a, t in pf if not t and "free_params" in ast.unparse(expand_locals(b.node, a))]
+        if len(neg) >= 2:
             ok = True
     ctx.ob(rule, b.site, ok, "" if ok else "bind_params no longer raises ParameterError for an unknown key", role="unknown-key",
            line=b.node.lineno)
@@ -213,13 +230,8 @@ def ctor_guard(ctx, rule="C10.symbol-cache"):
     ctx.require(calls, "Program.params no longer creates FreeParameter objects")
     for c in calls:
         nid = cfg.node_of_expr(c)[0]
-        conds = cfg.branch_conditions(nid)
-        ok = any(cfg.node(h).kind == "if" and isinstance(cfg.node(h).ast, ast.Compare) and
-                 isinstance(cfg.node(h).ast.ops[0], ast.NotIn) and "free_params" in ast.unparse(cfg.node(h).ast)
-                 and lab == TRUE for h, lab in conds) or \
-            any(cfg.node(h).kind == "if" and isinstance(cfg.node(h).ast, ast.Compare) and
-                isinstance(cfg.node(h).ast.ops[0], ast.In) and "free_params" in ast.unparse(cfg.node(h).ast)
-                and lab == FALSE for h, lab in conds)
+        ok = any(not t and isinstance(a, ast.Compare) and isinstance(a.ops[0], ast.In) and
+                 "free_params" in ast.unparse(expand_locals(f.node, a)) for a, t in path_facts(cfg, nid))
         ctx.ob(rule, f.site, ok, "" if ok else "FreeParameter(name) is constructed although the name may already exist: "
                "sympy returns the cached symbol and __init__ resets its bound value and default", role="ctor-guard",
                line=c.lineno)
